@@ -15,7 +15,8 @@ from .json_model import (decoder_tags, deref, encoder_tags, find_json_functions,
                          string_constants)
 from .normalize_model import NOFOLD, field_default
 
-ARBITRARY_SOURCES = {"co_filename", "co_consts"}
+# every string a code object carries is arbitrary: compile() of an ast accepts any str as an identifier (a lone surrogate included)
+ARBITRARY_SOURCES = {"co_filename", "co_consts", "co_name", "co_names", "co_varnames", "co_freevars", "co_cellvars"}
 
 
 def run(an: Analysis, rep):
